@@ -6,12 +6,17 @@ every parallel construct under the schedule read from a bit stream; the extracte
 stream.  mcb_sva_signed_tbb is compared EXACTLY (cycle by cycle, and the number of schedule bits consumed) with the
 model; every answer of all six *_tbb entry points is judged against the property text (independent Python judge +
 verified checker mcbcheck) under many schedules; the same entry points are run on the real oneTBB with 1, 2, 16 workers
-(judged), and — thorough tier — under ThreadSanitizer (race clause: runtime evidence only, partial)."""
+(judged), and — thorough tier — under ThreadSanitizer (race clause: runtime evidence only, partial).
+Tree-based exact variants (Properties_C03_trees.v, ParTreesModel.v): EXACT tie of the TBB lookup — harness/c03_trees.cpp calls
+ShortestOddCycleLookup<...,true> (kind L), CandidateCycleBuilder with weight limits (kind B) and the entry points
+mcb_sva_fvs_trees_tbb / mcb_sva_iso_trees_tbb (kind W) of the unchanged headers under the shim; the extracted model gets the graph, the
+recovered arrangement std::sort left, the feedback vertex set, the BFS roots and the same bit stream and must agree exactly (candidate
+order, every answer, cycles, returned value, bits consumed); every answer is also judged independently."""
 import json, os, re, subprocess, threading
 import lib, gen, mcb_oracle as O, exact_common as X
 
 PID = "C03"
-THEOREMS = ["Properties_C03.v", "Properties_C02_trees.v"]
+THEOREMS = ["Properties_C03.v", "Properties_C02_trees.v", "Properties_C03_trees.v", "Properties_C03_approx.v", "Properties_C03_approx_trees.v"]
 SHIM_LIBS = ["-lboost_timer"]
 REAL_LIBS = ["-ltbb", "-lboost_timer"]
 KEYS = ["ROOTS", "EORD", "RET", "N", "CYC", "SCHED", "SEQRET", "SEQN", "SEQW", "TRACE"]
@@ -221,6 +226,262 @@ def canon_impl(impl):
 
 
 # ------------------------------------------------------------------------------------------------------------------
+# the tree-based exact variants: exact tie of the TBB lookup (harness/c03_trees.cpp vs ParTreesModel)
+# ------------------------------------------------------------------------------------------------------------------
+TCORR = ("correspondence c03/trees%s: ParTreesModel.%s vs harness/c03_trees.cpp (%s of the unchanged headers on the controllable TBB shim)")
+TCOMP = {"L": ("treeslookup", "pt_lookup_call_Z", "ShortestOddCycleLookup<...,true>::operator()"),
+         "B": ("treesbuild", "pt_build_call_Z", "CandidateCycleBuilder::operator() with weight limit"),
+         "W": ("treesrun", "mcb_sva_trees_tbb_Z", "mcb_sva_fvs_trees_tbb / mcb_sva_iso_trees_tbb")}
+WMAX = {"I": str(2 ** 31 - 1), "D": str(2 ** 62)}      # the model's numeric_limits::max (D: a sentinel above every sum; printed as MAX by both sides)
+TKEYS = ["TREES", "ARR", "CAND", "CALLS", "Q", "ROOTS", "EORD", "RET", "N", "CYC", "POS"]
+
+
+def parse_tcase(line):
+    """-> dict(kind, bld, ty, scale, bits, sets, n, es, gpos)"""
+    t = line.split(); p = 1
+    d = {"kind": t[0], "bld": t[1], "ty": t[2], "scale": int(t[3]), "bits": "", "sets": []}
+    p = 4
+    if t[0] in ("L", "W"):
+        nb = int(t[p]); d["bits"] = "" if t[p + 1] == "-" else t[p + 1]; p += 2
+    if t[0] == "L":
+        d["shuffle"] = int(t[p]); p += 1
+        nc = int(t[p]); p += 1
+        for _ in range(nc):
+            k = int(t[p]); d["sets"].append(list(map(int, t[p + 1:p + 1 + k]))); p += 1 + k
+    if t[0] == "B":
+        k = int(t[p]); d["sets"].append(list(map(int, t[p + 1:p + 1 + k]))); p += 1 + k
+    n, es, _ = lib.parse_graph_tokens(t, p)
+    d.update({"n": n, "es": es, "gpos": p, "alg": d["bld"] + "_tbb", "k": None})
+    return d
+
+
+def tcase_line(kind, bld, ty, scale, g, bits=None, sets=None, shuffle=0):
+    head = "%s %s %s %d" % (kind, bld, ty, scale)
+    if kind in ("L", "W"): head += " %d %s" % (len(bits), bits or "-")
+    if kind == "L": head += " %d %d" % (shuffle, len(sets)) + "".join(" %d%s" % (len(s), "".join(" %d" % i for i in s)) for s in sets)
+    if kind == "B": head += " %d%s" % (len(sets[0]), "".join(" %d" % i for i in sets[0]))
+    return "%s %s" % (head, gen.graph_tokens(g))
+
+
+def tree_graph(rng, maxn):
+    """graphs aimed at the case splits of the lookup proof: many candidates of equal weight (unit / small weights on dense and
+    regular graphs), long cycles whose partial path weight passes the running minimum only after several edges, forests (no candidate)"""
+    r = rng.random()
+    if r < 0.07: g = gen.random_tree(rng, rng.randint(1, maxn))
+    elif r < 0.10: g = (rng.choice([0, 1, 3]), [])
+    elif r < 0.22: g = gen.grid(rng.randint(2, 3), rng.randint(2, max(2, maxn // 3)))
+    elif r < 0.30: g = gen.hypercube(rng.choice([2, 3, 3]))
+    elif r < 0.40: g = gen.complete(rng.randint(4, 6))
+    elif r < 0.48: g = gen.wheel(rng.randint(4, min(9, maxn)))
+    elif r < 0.54: g = gen.petersen()
+    elif r < 0.62: g = gen.theta(rng.randint(0, 3), rng.randint(1, 4), rng.randint(2, 5))
+    elif r < 0.68: g = gen.bipartite(rng.randint(2, 3), rng.randint(2, 4))
+    else: return X.gen_graph(rng, maxn)[0]
+    if g[0] > 0 and rng.random() < 0.8: g = gen.relabel(rng, g[0], g[1])
+    return gen.weigh(rng, g, rng.choice(["unit", "unit", "ties", "ties", "ties", "wide"]))[0]
+
+
+def signed_sets(rng, g, k):
+    """k signed edge sets: random subsets of several densities, single edges, the empty set, all edges, and edge cuts (every cycle
+    crosses a cut an even number of times: no candidate is odd)"""
+    n, es = g; m = len(es); out = []
+    for _ in range(k):
+        r = rng.random()
+        if m == 0 or r < 0.08: s = []
+        elif r < 0.2: s = [rng.randrange(m)]
+        elif r < 0.3:
+            side = [rng.random() < 0.5 for _ in range(n)]
+            s = [i for i, (u, v, _) in enumerate(es) if side[u] != side[v]]
+        elif r < 0.35: s = list(range(m))
+        else:
+            p = rng.choice([0.15, 0.3, 0.5, 0.7])
+            s = [i for i in range(m) if rng.random() < p]
+        out.append(sorted(s))
+    return out
+
+
+def trees_cases(rng, tier):
+    ng = 900 if tier == "quick" else 4000
+    maxn = 12 if tier == "quick" else 20
+    out = []
+    for i in range(ng):
+        g = tree_graph(rng, maxn)
+        ity = gen.int_domain_ok(g)
+        def ty_sc():
+            ty = "I" if ity and rng.random() < 0.4 else "D"
+            return ty, (0 if ty == "I" else rng.choice([0, 0, -3, 5]))
+        for bld in ("fvs", "iso", "horton"):
+            ty, sc = ty_sc()
+            b = rand_bits(rng) if i % 5 else rng.choice(["1", "110", "1", "100", ""])
+            out.append((tcase_line("L", bld, ty, sc, g, bits=b, sets=signed_sets(rng, g, rng.randint(2, 5))), g))
+            if i % 2 == 0:       # an arbitrary, unsorted arrangement of the candidate vector (the theorems quantify over every permutation)
+                ty, sc = ty_sc()
+                out.append((tcase_line("L", bld, ty, sc, g, bits=rand_bits(rng), sets=signed_sets(rng, g, rng.randint(2, 4)), shuffle=rng.randint(1, 10 ** 9)), g))
+            if i % 3 == 0:
+                ty, sc = ty_sc()
+                out.append((tcase_line("B", bld, ty, sc, g, sets=signed_sets(rng, g, 1)), g))
+        small = g[0] <= 14 and len(g[1]) <= 45      # (whole runs of the extracted model on larger graphs cost seconds each)
+        for bld in ("fvs", "iso"):
+            for _ in range(2 if small else 0):
+                ty, sc = ty_sc()
+                out.append((tcase_line("W", bld, ty, sc, g, bits=rand_bits(rng)), g))
+    return out
+
+
+def trees_model_line(d, line, impl):
+    """the case of the extracted model for one answered harness case (oracles recovered from the run), or None"""
+    f = lib.fields(impl, TKEYS)
+    if "TREES" not in f or not f["TREES"]: return None
+    gt = " ".join(line.split()[d["gpos"]:])
+    picks = f["TREES"][1:] if d["bld"] == "fvs" else []
+    pk = "%d %s" % (len(picks), " ".join(picks))
+    if d["kind"] == "B":
+        q = f.get("Q", [])
+        if not q: return None
+        nq, p, qs = int(q[0]), 1, []
+        for _ in range(nq):                      # i use lim found w k ids
+            k = int(q[p + 5]); qs.append(q[p:p + 3]); p += 6 + k
+        sg = d["sets"][0]
+        return "%s %s %s %d %s %d %s" % (d["bld"], gt, pk, len(sg), " ".join(map(str, sg)), nq, " ".join(" ".join(x) for x in qs))
+    arr = f.get("ARR", ["0"])
+    ar = "%s %s" % (arr[0], " ".join(arr[1:]))
+    bits = "%d %s" % (len(d["bits"]), d["bits"] or "-")
+    if d["kind"] == "L":
+        return "%s %s %s %s %s %s %d %s" % (d["bld"], WMAX[d["ty"]], gt, pk, ar, bits, len(d["sets"]),
+                                            " ".join("%d %s" % (len(s), " ".join(map(str, s))) for s in d["sets"]))
+    roots = f.get("ROOTS", [])
+    return "%s %s %s %d %s %s %s %s" % (d["bld"], WMAX[d["ty"]], gt, len(roots), " ".join(roots), pk, ar, bits)
+
+
+def trees_canon(d, impl):
+    key = {"L": " CAND ", "B": " CAND ", "W": " RET "}[d["kind"]]
+    i = (" " + impl).find(key)
+    return " ".join(impl[i:].split()) if i >= 0 else impl
+
+
+def min_odd_closed_walk(n, es, sg):
+    """weight of a lightest closed walk with an odd number of signed edges (= of a lightest odd simple cycle, weights > 0), or None;
+    Dijkstra in the signed double cover — independent of the candidate collections"""
+    import heapq
+    sgs = set(sg); adj = [[] for _ in range(2 * n)]
+    for i, (u, v, w) in enumerate(es):
+        f = 1 if i in sgs else 0
+        for a, b in ((u, v), (v, u)):
+            for p in (0, 1): adj[2 * a + p].append((2 * b + (p ^ f), w))
+    best = None
+    for s in range(n):
+        dist = {2 * s: 0}; pq = [(0, 2 * s)]; done = set()
+        while pq:
+            dd, x = heapq.heappop(pq)
+            if x in done: continue
+            done.add(x)
+            if x == 2 * s + 1: break
+            if best is not None and dd >= best: break
+            for (y, w) in adj[x]:
+                nd = dd + w
+                if y not in dist or nd < dist[y]: dist[y] = nd; heapq.heappush(pq, (nd, y))
+        if 2 * s + 1 in done and (best is None or dist[2 * s + 1] < best): best = dist[2 * s + 1]
+    return best
+
+
+def judge_lookup(d, impl):
+    """None or why an answer of ShortestOddCycleLookup is not a minimum-weight odd simple cycle of the caller's graph (not found: none exists)"""
+    f = lib.fields(impl, TKEYS)
+    t = f.get("CALLS")
+    if not t: return "the lookup did not answer: %s" % impl[:160]
+    n, es = d["n"], d["es"]
+    p = 1
+    for ci, sg in enumerate(d["sets"]):
+        try:
+            assert t[p] == "R"
+            found, w, k = t[p + 1] == "1", t[p + 2], int(t[p + 3]); ids = [int(x) for x in t[p + 4:p + 4 + k]]; p += 4 + k + 2
+        except Exception:
+            return "unparsable answer of call %d: %s" % (ci, " ".join(t[p:p + 8]))
+        best = min_odd_closed_walk(n, es, sg)
+        tag = "call %d, signed set %s: " % (ci, sg)
+        if not found:
+            if best is not None: return tag + "answers not-found although an odd cycle of weight %d exists" % best
+            if ids or w != "MAX": return tag + "not-found answer is not the identity tuple ({}, max, false): %s %s" % (w, ids)
+            continue
+        why = O.simple_cycle_problem(n, es, ids)
+        if why: return tag + "returned edge set %s: %s" % (ids, why)
+        if len(set(ids) & set(sg)) % 2 == 0: return tag + "returned cycle %s has an even number of signed edges" % ids
+        tot = sum(es[i][2] for i in ids)
+        if str(tot) != w: return tag + "returned weight %s != weight %d of the returned cycle" % (w, tot)
+        if best is None or tot != best: return tag + "returned cycle of weight %d, a lightest odd cycle weighs %s" % (tot, best)
+    return None
+
+
+def judge_builder(d, impl):
+    """limit-monotonicity on the implementation's own answers: with limit L the builder answers exactly when it answers without limit with
+    weight <= L, with the same cycle and weight"""
+    f = lib.fields(impl, TKEYS)
+    q = f.get("Q")
+    if not q: return "no answer: %s" % impl[:160]
+    nq, p, base = int(q[0]), 1, {}
+    for _ in range(nq):
+        i, use, lim, found, w, k = int(q[p]), q[p + 1] == "1", int(q[p + 2]), q[p + 3] == "1", q[p + 4], int(q[p + 5])
+        ids = q[p + 6:p + 6 + k]; p += 6 + k
+        if not use: base[i] = (found, w, ids); continue
+        b = base.get(i)
+        if b is None: return "no unlimited query for candidate %d" % i
+        exp = b if (b[0] and int(b[1]) <= lim) else (False, "0", [])
+        if (found, w, ids) != exp:
+            return "candidate %d with weight limit %d answers %s, without limit %s" % (i, lim, (found, w, ids), b)
+    return None
+
+
+def trees_experiment(c, exe, lines, tier, report, opts, label, count=True):
+    io = lib.run_lines([exe], lines)
+    ds = [parse_tcase(l) for l in lines]
+    ml = {}
+    for i, (l, d) in enumerate(zip(lines, ds)):
+        m = trees_model_line(d, l, io[i]) if not io[i].startswith(("IMPL-EXCEPTION", "CRASH")) else None
+        if m is not None: ml[i] = m
+    mo = {}
+    for kind, (comp, _, _) in TCOMP.items():
+        idx = [i for i in ml if ds[i]["kind"] == kind]
+        mo.update(zip(idx, lib.run_model(comp, [ml[i] for i in idx], group="c03", timeout=1500)))
+    st = c.extra.setdefault("trees_tbb_exact", {"L_runs": 0, "L_agree": 0, "L_calls": 0, "B_runs": 0, "B_agree": 0, "B_queries": 0, "W_runs": 0, "W_agree": 0,
+                                                "not_found_answers": 0, "L_runs_unsorted_arrangement": 0, "runs_with_forks": 0})
+    for i, (l, d) in enumerate(zip(lines, ds)):
+        n, es = d["n"], d["es"]; kind = d["kind"]
+        N = len(es) - n + O.components(n, es)
+        f = lib.fields(io[i], TKEYS)
+        ncand = int(f["CAND"][0]) if f.get("CAND") else (int(f["ARR"][0]) if f.get("ARR") else 0)
+        forks = "1" in d["bits"]
+        if count:
+            c.count(l, N >= 1 and (kind == "B" or forks), bucket="trees-exact %s %s cands%s %s" % (
+                kind, d["bld"], "0" if ncand == 0 else "1-15" if ncand <= 15 else ">15",
+                "-" if kind == "B" else "splits" if forks else "sequential"))
+        rep = {"component": "c03_trees", "case": l, "impl": io[i], "experiment": label}
+        if i in mo: rep.update({"model": mo[i], "model_case": ml[i]})
+        if kind == "W": why = judge(d, io[i], opts)
+        elif kind == "L": why = judge_lookup(d, io[i])
+        else: why = judge_builder(d, io[i])
+        st[kind + "_runs"] += 1
+        if kind == "L":
+            st["L_calls"] += len(d["sets"]); st["not_found_answers"] += io[i].count(" R 0 ")
+            if d.get("shuffle"): st["L_runs_unsorted_arrangement"] += 1
+        if kind == "B" and f.get("Q"):
+            st["B_queries"] += int(f["Q"][0])
+        if forks and kind != "B": st["runs_with_forks"] += 1
+        comp, mname, what = TCOMP[kind]
+        agree = i in mo and trees_canon(d, io[i]) == mo[i].strip()
+        if agree: st[kind + "_agree"] += 1
+        if why and kind == "W":
+            report("trees-judge", "%s: %s [schedule bits %s]" % (d["alg"], why, d["bits"] or "all-0"), rep, True)
+        elif why:
+            r2 = dict(rep); r2["theorem_or_correspondence"] = TCORR % ("/" + comp, mname, what)
+            report("trees-fn", "function-level judge of %s fails (%s); no entry-point input exhibiting it was derived from this case" % (what, why), r2, False)
+        elif not agree:
+            r2 = dict(rep); r2["theorem_or_correspondence"] = TCORR % ("/" + comp, mname, what)
+            report("trees-corr", "correspondence %s vs extracted ParTreesModel.%s (exact: candidate order, every answer, cycles, returned value, schedule bits consumed; "
+                   "same bit stream, recovered arrangement / feedback vertex set / roots) no longer checks; the implementation's answer still passes the independent judge" % (what, mname), r2, False)
+    return io
+
+
+# ------------------------------------------------------------------------------------------------------------------
 # ThreadSanitizer
 # ------------------------------------------------------------------------------------------------------------------
 SUPP = "race_top:tbb::detail\n"
@@ -306,6 +567,7 @@ def run_tsan(exe, lines, timeout=1500):
 # ------------------------------------------------------------------------------------------------------------------
 def build_all(c, tier):
     specs = [dict(name="c03", srcs=["c03.cpp"], libs=SHIM_LIBS, shim=True),
+             dict(name="c03_trees", srcs=["c03_trees.cpp"], libs=SHIM_LIBS, shim=True),
              dict(name="c03_real", srcs=["c03_real.cpp"], libs=REAL_LIBS)]
     if tier == "thorough":
         specs.append(dict(name="c03_tsan", srcs=["c03_real.cpp"], libs=REAL_LIBS, sanitize="tsan"))
@@ -483,6 +745,23 @@ def check(tier, seed):
             shim_experiment(c, exe, plines, tier, False, report, opts, "all push permutations for N <= 4")
             c.extra["push_permutation_runs"] = len(plines)
             lap("shim exhaustive small")
+    # ---- tree-based exact variants: exact tie of the TBB lookup ------------------------------------------------------
+    if ok and exes.get("c03_trees"):
+        tcorpus = [l for l in lib.corpus_cases(PID) if l.startswith(("L ", "B ", "W "))]
+        c.extra["trees_exact_corpus_cases"] = len(tcorpus)
+        tlines = tcorpus + [x[0] for x in trees_cases(c.rng, tier)]
+        trees_experiment(c, exes["c03_trees"], tlines, tier, report, opts, "tree lookup, random schedules and signed sets")
+        if tier == "thorough":
+            # every schedule tree of the reduction over <= 5 candidates / of the parallel_for over <= 5 trees, as cyclic streams
+            graphs = [g for g in small_graphs(c.rng, 120)]
+            xl = []
+            for g in graphs:
+                for cd in tree_codes(5)[::2] + tree_codes(4) + tree_codes(3):
+                    bld = ("fvs", "iso", "horton")[len(xl) % 3]
+                    xl.append(tcase_line("L", bld, "D", 0, g, bits=cd, sets=signed_sets(c.rng, g, 3), shuffle=(len(xl) % 2) * (1 + len(xl))))
+                    if bld != "horton": xl.append(tcase_line("W", bld, "D", 0, g, bits=cd))
+            trees_experiment(c, exes["c03_trees"], xl, tier, report, opts, "tree lookup, tree codes of ranges <= 5 as cyclic streams")
+        lap("tree lookup exact tie")
     # ---- real TBB (runtime sampling) ------------------------------------------------------------------------------
     if exes.get("c03_real"):
         rc = real_cases(c.rng, tier)
@@ -525,8 +804,11 @@ def check(tier, seed):
                      "BFS root order and pointer order of edge descriptors are recovered from the run and fed to the model as oracles; the schedule bit stream and the push permutation are given to both sides",
                      "boost::d_ary_heap_indirect<.,4,.> behaves as HeapModel.v; std::set<Edge> iterates in pointer order",
                      "double weights are integer multiples of a power of two, sums below 2^53; int weights with 2*sum < 2^31 (exact domain)",
+                     "tree-based TBB variants: the arrangement left by std::sort is recovered by running the same builder and the same std::sort on the same graph object "
+                     "(deterministic) and given to the model as positions in emission order; the feedback vertex set is the list of tree sources of that builder run; "
+                     "numeric_limits::max is a model parameter (int: INT_MAX, double: a sentinel above every sum; compared as the token MAX)",
                      "C03_signed_tbb needs no premise about the search (it rests on BidirProofs*.v); only the two C03a_*_modulo_search instances keep per-index limit-monotonicity as a premise"],
-        trusted_extra=["harness/shim/tbb/*.h (fake TBB executing an explicit schedule), harness/c03.cpp, harness/c03_real.cpp (TSan fork/join annotations)"],
+        trusted_extra=["harness/shim/tbb/*.h (fake TBB executing an explicit schedule), harness/c03.cpp, harness/c03_trees.cpp, harness/c03_real.cpp (TSan fork/join annotations)"],
         explanation="The theorems cover every schedule tree (arbitrary split points, Seq/Fork labelling, execution order), every insertion order of the initial supports and "
                     "every partition of the update range. This run ties the model to parmcb_sva_signed_tbb.hpp by exact agreement (cycles and bits consumed) under the same "
                     "schedules, and judges every answer of all six TBB entry points (valid basis of the caller's graph, returned = emitted weight, minimum for exact variants, "
@@ -546,6 +828,23 @@ def replay(path):
         print("no input case recorded (%s)" % r.get("theorem_or_correspondence", r.get("what")))
         print("VIOLATION property=%s replay=%s" % (PID, path)); return 1
     line = r["case"]; comp = r.get("component", "c03")
+    if comp == "c03_trees":
+        lib.ensure_model("c03")
+        exe, err = lib.build_cpp(name="c03_trees", srcs=["c03_trees.cpp"], libs=SHIM_LIBS, shim=True)
+        if exe is None: print(err); print("VIOLATION property=%s replay=%s" % (PID, path)); return 1
+        d = parse_tcase(line)
+        o = lib.run_lines([exe], [line], par=1)[0]
+        print("case:", line); print("impl:", o)
+        bad = judge(d, o, {}) if d["kind"] == "W" else judge_lookup(d, o) if d["kind"] == "L" else judge_builder(d, o)
+        ml = trees_model_line(d, line, o) if not o.startswith(("IMPL-EXCEPTION", "CRASH")) else None
+        if ml is not None:
+            m = lib.run_model(TCOMP[d["kind"]][0], [ml], par=1, group="c03")[0]; print("model:", m)
+            if not bad and m.strip() != trees_canon(d, o): bad = "differs from the extracted ParTreesModel under the same schedule"
+        elif not bad: bad = "no answer"
+        print("judge:", bad)
+        if bad:
+            print("VIOLATION property=%s replay=%s" % (PID, path)); return 1
+        return 0
     d = parse_case(line)
     bad = None
     if comp == "c03":
